@@ -19,14 +19,29 @@ pub struct Unit {
     /// C15/C08: a crate panic on a feasible path is itself the violation
     pub panic_is_violation: bool,
     pub max_decisions: usize,
+    /// wall-clock budget; when exceeded the rest of the unit's tree is dropped and the unit is reported as not exhaustive
+    pub budget_s: f64,
 }
+pub trait CallWith<F> { fn call_with(&self, f: F); }
+macro_rules! impl_call_with { ($($t:ident $i:tt),*) => { impl<$($t: Clone,)* Func: Fn($($t),*)> CallWith<Func> for ($($t,)*) { fn call_with(&self, f: Func) { f($(self.$i.clone()),*) } } } }
+impl_call_with!(A 0);
+impl_call_with!(A 0, B 1);
+impl_call_with!(A 0, B 1, C 2);
+impl_call_with!(A 0, B 1, C 2, D 3);
+impl_call_with!(A 0, B 1, C 2, D 3, E 4);
+impl_call_with!(A 0, B 1, C 2, D 3, E 4, G 5);
+impl_call_with!(A 0, B 1, C 2, D 3, E 4, G 5, H 6);
+impl_call_with!(A 0, B 1, C 2, D 3, E 4, G 5, H 6, I 7);
 #[macro_export]
 macro_rules! unit {
     ($id:expr, $f:ident ( $($arg:expr),* )) => {{
-        $crate::run::Unit { id: $id.to_string(),
-            sym: { Box::new(move || $f::<$crate::sym::Sym>($($arg.clone()),*)) },
-            nat: { Box::new(move || $f::<f64>($($arg.clone()),*)) },
-            path_cap: 20000, panic_is_violation: false, max_decisions: 600 }
+        let __id = $id.to_string();
+        let __t1 = ($($arg.clone(),)*);
+        let __t2 = __t1.clone();
+        $crate::run::Unit { id: __id,
+            sym: { Box::new(move || $crate::run::CallWith::call_with(&__t1, $f::<$crate::sym::Sym>)) },
+            nat: { Box::new(move || $crate::run::CallWith::call_with(&__t2, $f::<f64>)) },
+            path_cap: 20000, panic_is_violation: false, max_decisions: 600, budget_s: 300.0 }
     }};
 }
 
@@ -194,6 +209,7 @@ fn worker(units: &[Unit], sched: &(Mutex<Sched>, Condvar), cfg: &Config) {
         if cur != Some(ui) {
             let mut ctx = Ctx::new(cfg.timeout_ms);
             ctx.max_decisions = unit.max_decisions;
+            ctx.solver.tag = unit.id.clone();
             CTX.with(|c| *c.borrow_mut() = Some(ctx));
             cur = Some(ui);
         }
@@ -257,7 +273,9 @@ fn worker(units: &[Unit], sched: &(Mutex<Sched>, Condvar), cfg: &Config) {
             g.reports[ui].stopped_on_violation = true;
             g.jobs.retain(|(j, _)| *j != ui);
         } else if !g.stopped[ui] {
-            if g.reports[ui].paths as usize + g.jobs.iter().filter(|(j, _)| *j == ui).count() + pending.len() > unit.path_cap {
+            let over_budget = g.t0[ui].map_or(false, |t| t.elapsed().as_secs_f64() > unit.budget_s);
+            if over_budget { g.jobs.retain(|(j, _)| *j != ui); }
+            if over_budget || g.reports[ui].paths as usize + g.jobs.iter().filter(|(j, _)| *j == ui).count() + pending.len() > unit.path_cap {
                 g.reports[ui].capped = true;
             } else {
                 for p in pending { g.jobs.push((ui, p)); }
